@@ -289,7 +289,7 @@ class PoolRun:
     def record(self, rid):
         return {"id": rid, "ev": [{"a": a, "w": w} for a, w in self.events], "end": self.end or "running",
                 "out": [{"id": d[0], "val": d[1] if isinstance(d[1], int) else -1, "failed": bool(d[2])} for d in self.delivered],
-                "exc": type(self.exc).__name__ if self.exc is not None else ""}
+                "exc": type(self.exc).__name__ if self.exc is not None else "", "viaRun": False, "strict": False}
 
 
 def explore(n, W, max_tasks, raises, tolerate, rnd, max_steps=4000, bias=None):
